@@ -108,6 +108,7 @@ fn main() {
                 "instantiate" => probe::instantiate_period(&model),
                 "derive" => probe::derive(&model),
                 "paginate" => probe::paginate(&model),
+                "batchquery" => probe::batchquery(&model),
                 other => serde_json::json!({"reproduced": false, "error": format!("unknown probe {other}")}),
             };
             println!("{}", serde_json::to_string(&r).unwrap());
